@@ -11,7 +11,7 @@ CHECKS = {
    text="Every sequence of vector mutators (all in-range arguments), entry operations, committed transactions, subscription points and poll placements up to depth 4 (quick) / 5 (thorough) on vectors of length <= 4 from every initial length 0..3 is executed on the real ObservableVector with 1-3 real subscribers; after every call the published message must take the pre-state to the post-state, be exactly one diff for a direct call and nothing for the documented no-ops, and every subscriber (plain or batched, however it is polled) must receive exactly the diffs an always-drained batched subscriber received. Exhaustive within the bounds, which is the right level for an 'all histories, all polling patterns' statement that needs no concurrency.",
    note="capacity 16 >= depth (no lag); tokio broadcast, imbl trusted; bounds as in evidence.coverage.bounds"),
  "C06": dict(design="5 (C06)", tech=SEQ,
-   text="Capacities 1, 2, 3 (ring of 4) and 16; every sequence over a reduced alphabet (one mutator per diff kind, transactions, polls of manual subscribers) to depth 6-7 (quick) / 7-8 (thorough) plus the full alphabet to depth 4/5 for capacities 1-2. A Reset is accepted only when more than `capacity` messages were pending for that subscriber (counted from message boundaries learned from an always-drained subscriber), must carry the current contents, every Pending answer requires replica == contents, every diff must be applicable, every batched item must bring the replica up to date.",
+   text="Capacities 1, 2, 3 (ring of 4) and 16; every sequence over a reduced alphabet (one mutator per diff kind, transactions, polls of manual subscribers) to depth 6-7 (quick) / 7-8 (thorough) plus the full alphabet to depth 4/5 for capacities 1-2. A Reset is accepted only when more than `capacity` messages were pending for that subscriber (counted from message boundaries learned from an always-drained subscriber), must carry the current contents, every Pending answer requires replica == contents, every diff must be applicable, every batched item must bring the replica up to date. A second engine (mc_pause, library built with the pause hooks) enumerates which sender operations run at which pause point inside a poll (before each try_recv of the batched drain loop and of handle_lag), capacities 1-2, depth 5/6: sender/receiver interleavings within one poll.",
    note="the pending count follows the stream's receive behaviour (plain: one message per receive, batched/lag: all); tokio's rounding of the ring only makes Resets rarer"),
  "C07": dict(design="5 (C07)", tech=SEQ,
    text="Bracketed transaction tokens (begin, any mutator incl. clear/entry ops/out-of-range-free ops, rollback, commit, drop, or the sequence simply ending inside the transaction) with subscriber polls and subscriber drops allowed inside, full alphabet to depth 4 (quick) / 5 (thorough) and reduced alphabet to depth 6 / 8, capacities 16 and 1, with and without subscribers. Nothing may be published while a transaction is open or after it is abandoned, contents must be untouched by abandoned work, Deref of the transaction must show the working copy, a commit publishes one non-empty message taking pre to post, nothing if nothing was recorded.",
@@ -32,7 +32,7 @@ CHECKS = {
    text="Sort (Ord on (key,id)), SortBy and SortByKey (keys only, so ties exist) over keys {0,1,2}: every key pattern of the initial vector (length 0..2 quick, 0..3 thorough) and of every inserted/replaced item, plain and batched, capacities 16 and 1, eager and manual; every sequence to depth 3/4 (full alphabet) and 4/5 (reduced, with lag and drop). Oracle at every boundary and Pending: the view is a permutation of the input (multiset on (key,id)) and ordered by the comparison; stability is not demanded.",
    note="one open finding (F7, Truncate forwarded verbatim, pinned by repository tests) is recognised only if the view was correct immediately before the verbatim Truncate"),
  "C12": dict(design="5 (C12)", tech=SEQ,
-   text="All 400 chains of two stages over a menu of 20 stage kinds (head/tail/skip static, dynamic via Observable, dynamic via queue, dynamic with initial value; filter, filter_map, sort, sort_by, sort_by_key), both flavours, six initial vectors, full alphabet depth 2 (quick) / 3 (thorough) and reduced alphabet depth 3/4 (incl. capacity 1); chains of three stages (10 kinds quick, 20 thorough) depth 2/3; and the 'adapter itself as observer' form (dynamic head/skip value with the next stage built directly on it, no tap in between). A tap between all stages gives every stage its own input and view replica; every stage is checked against the stage below it from the initial values on.",
+   text="All 400 chains of two stages over a menu of 20 stage kinds (head/tail/skip static, dynamic via Observable, dynamic via queue, dynamic with initial value; filter, filter_map, sort, sort_by, sort_by_key), both flavours, six initial vectors, full alphabet depth 2 (quick) / 3 (thorough) and reduced alphabet depth 3/4 (incl. capacity 1); chains of three stages (10 kinds quick, 20 thorough) depth 2/3; and the 'adapter itself as observer' form (dynamic head/skip value with the next stage built directly on it, no tap in between; dynamic-with-initial-value head/tail/skip kept as values so that into_parts runs with a non-zero limit). A tap between all stages gives every stage its own input and view replica; every stage is checked against the stage below it from the initial values on.",
    note="found the into_parts defect repaired by repo commit e6f750d; F5 and F7 surface in chains with their single-stage signatures"),
  "C13": dict(design="5 (C13)", tech=SEQ,
    text="Batched flavour with multi-operation transactions: every fixed-parameter adapter (static head/tail/skip 0..3, filter, filter_map, sort*) and 49 fixed two-stage chains run next to the same chain on a plain subscriber of the same vector; whenever both are quiescent the flattened diff lists must be identical; no batch may be empty; after every batch (one source batch or one limit change) the view must equal the adapter's view of its input, which below the chain is a state the vector had between top-level operations. Dynamic adapters and lag (capacity 1) are covered in batched flavour without twin. Depth 3/4 (full alphabet), 4/5 (reduced).",
@@ -53,19 +53,19 @@ CHECKS = {
    text="History half: after every token of every history of clone / drop / downgrade / upgrade / into_shared / subscribe / set / poll (depth 4/5, up to 3 handles, 2 weak references) every subscriber is probed through a reset clone: Ready(None) exactly when no owner exists; get/read keep the last value after the end; upgrade succeeds exactly while an owner exists. Schedule half: loom explores all interleavings of two or three clones dropped on different threads, of the last drop racing with WeakObservable::upgrade, and of clone racing with drop; afterwards the stream must have ended (or be open while an upgraded owner lives).",
    note="found the concurrent-last-drop defect repaired by repo commit ed96a5a"),
  "C04": dict(design="4 (C04)", tech=LOOM + " + " + SEQ, engine="loom+seqmc",
-   text="Seven two-/three-thread programs on clones of one SharedObservable (set||set, update||update||get, set_if_not_eq twice, read guard vs set, write guard vs get/next_now, writer vs subscriber thread, subscribe vs set) explored over every interleaving (bound 3 quick, unbounded thorough); recorded invocation/response histories are checked by brute force against the sequential register specification, plus direct invariants (no lost increment, exactly one winner, monotone subscriber). The guard-exclusion facts are additionally enumerated sequentially with try_read/try_write probes under every guard kind.",
+   text="Nine two-/three-thread programs on clones of one SharedObservable (set||set, update||update||get, set_if_not_eq twice, read guard vs set, write guard vs get/next_now, writer vs subscriber thread, subscribe vs set, next_now vs set, next_ref_now/get vs two sets) explored over every interleaving (bound 3 quick, unbounded thorough); recorded invocation/response histories are checked by brute force against the sequential register specification, plus direct invariants (no lost increment, exactly one winner, monotone subscriber). The guard-exclusion facts are additionally enumerated sequentially with try_read/try_write probes under every guard kind.",
    note="histories have <= 4 operations; loom's RwLock has no writer preference"),
  "C16": dict(design="4 (C16)", tech=SEQ,
-   text="The C01-C04 sequential sweeps (values, wake-ups, handle histories, guard exclusion; depth 3-4 quick, 4-5 thorough) are run on Observable::new_async / SharedObservable::new_async and Subscriber<_, AsyncLock> through the same token language against the same reference model as the sync flavour; every async call is polled by a hand-rolled executor and must complete on its first poll when no guard is held.",
-   note="thread-level schedules of the async flavour are out of reach (tokio is not under loom); histories with guards held across other tasks are an extension listed in DESIGN"),
+   text="The C01-C04 sequential sweeps (values, wake-ups, handle histories, guard exclusion; depth 3-4 quick, 4-5 thorough) are run on Observable::new_async / SharedObservable::new_async and Subscriber<_, AsyncLock> through the same token language against the same reference model as the sync flavour; every async call is polled by a hand-rolled executor and must complete on its first poll when no guard is held. Second half: guard tasks parked on harness gates while holding a write or read guard, with set / set_if_not_eq / get / subscriber next() tasks queued behind them; tokens spawn, poll, open-gate, cancel and settle (poll woken tasks until quiescent) to depth 4-6 (quick) / 5-7: exclusion, results at completion order, and no task may stay pending once every gate is open and no woken waker is left.",
+   note="thread-level schedules of the async flavour are out of reach (tokio is not under loom); tokio's RwLock/semaphore trusted"),
  "C19": dict(design="4 (C19)", tech=SEQ,
    text="After every token of every handle history (clone, subscribe, subscribe_reset, downgrade, weak clone, upgrade, into_shared, subscriber clone, every drop; up to 3 handles, 3 subscribers, 2 weak references; depth 4 quick / 5 thorough) observable_count, subscriber_count (both observable kinds), strong_count and weak_count are compared with the model, for both lock flavours.",
    note="found the async-flavour double count repaired by repo commit 0ab6e9f"),
  "C18": dict(design="5 (C18)", tech="exhaustive enumeration of all inputs up to a size bound on the real code (explicit-state, no sampling)",
-   text="All vectors of length 0..3 (0..5 thorough) over three values x all eleven diff kinds with every index/length 0..len+2 and every payload of length 0..2 (0..3) x four element mappings (identity, +10 into another type, constant, to String): apply(map(d), map(v)) == map(apply(d, v)) including agreement on panics, map(identity) == d, and apply equals the documented plain-vector meaning, panicking exactly for insert/set/remove past the end. The input space within the bound is enumerated completely; the property has no history or schedule dimension.",
+   text="All vectors of length 0..3 (0..5 thorough) over three values x all eleven diff kinds with every index/length 0..len+2 and every payload of length 0..2 (0..3) x four element mappings (identity, +10 into another type, constant, to String): apply(map(d), map(v)) == map(apply(d, v)) including agreement on panics, map(identity) == d, and apply equals the documented plain-vector meaning, panicking exactly for insert/set/remove past the end. Plus large shapes: vectors of length 0/1/63/64/65/129 with Append/Reset payloads of every length 0..200 (0..520 thorough, ordered distinct content crossing imbl's 64-element leaves) and every index for the other kinds. The input space within the bound is enumerated completely; the property has no history or schedule dimension.",
    note="imbl::Vector trusted; sizes beyond the bound not covered"),
  "C20": dict(design="5 (C20)", tech=SEQ,
-   text="The vec, adapter/chain and observable enumerations re-instantiated with an instrumented element/value type whose thread-local registry sees every construction, clone and drop: a drop, clone, comparison or read of an instance that is not live is an immediate violation; after each sequence, once every observable, vector, subscriber, stream, adapter, replica and model is dropped, no instance may be alive. Token sets reach the three unsafe sites (into_shared with and without subscribers, the reusable boxed receive future on every completed poll, the YieldBatch->Recv swap incl. a stream dropped mid-batch). If the subject kills the process (double free, segfault) the driver re-runs the enumeration single-threaded under glibc's checking allocator, bisects to the culprit sequence and reports it with a replayable range.",
+   text="The vec, adapter/chain and observable enumerations re-instantiated with an instrumented element/value type whose thread-local registry sees every construction, clone and drop: a drop, clone, comparison or read of an instance that is not live is an immediate violation; after each sequence, once every observable, vector, subscriber, stream, adapter, replica and model is dropped, no instance may be alive. Token sets reach the three unsafe sites (into_shared with and without subscribers, the reusable boxed receive future on every completed poll, the YieldBatch->Recv swap incl. a stream dropped mid-batch with a further unreceived update; configurations without the always-drained subscriber so that every receiver can go away in the middle of a transaction). If the subject kills the process (double free, segfault) the driver re-runs the enumeration single-threaded under glibc's checking allocator, bisects to the culprit sequence and reports it with a replayable range.",
    note="a use-after-free that neither touches the instrumented type nor trips the allocator is not seen; a signal death is accepted as a verdict only for this property"),
 }
 
@@ -73,13 +73,13 @@ NOT_YET = "check not built yet (work in progress, see DESIGN.md section 12)"
 
 def main():
     ids = [json.loads(l)["id"] for l in open("/verif/properties.jsonl")]
-    hooks_commits = ['441d561']
+    hooks_commits = ['441d561', 'b8ac502']
     m = {
       "version": 1,
       "setup_cmd": "./check setup",
       "hooks": {
         "guard": "cfg(eyeball_verif)",
-        "enable": "RUSTFLAGS=\"--cfg eyeball_verif\" when building /verif/lm (loom engine only; the sequential engine compiles /repo exactly as shipped)",
+        "enable": "RUSTFLAGS=\"--cfg eyeball_verif\" when building /verif/lm (loom engine: std::sync -> loom stand-ins in crate eyeball) and /verif/mcp (pause-point explorer: pause points in eyeball-im's subscriber streams); the sequential engine /verif/mc compiles /repo exactly as shipped",
         "baseline_off_cmd": "cd /repo && (cargo nextest run --workspace --no-fail-fast --offline 2>/dev/null || cargo test --workspace --no-fail-fast --offline)",
         "source_commits": hooks_commits,
         "add_only": True,
@@ -87,6 +87,8 @@ def main():
       "engines": [
         {"name": "loom", "path": "lm", "serves_properties": ["C02", "C03", "C04"],
          "kind_free_text": "loom DPOR exploration of all thread interleavings of small concurrent programs on the real sync-flavour code compiled against loom-backed Arc/Weak/RwLock stand-ins (cfg eyeball_verif)"},
+        {"name": "seqmc+pause-points", "path": "mcp", "serves_properties": ["C06"],
+         "kind_free_text": "the same explorer on eyeball-im built with the pause hooks: sender operations are executed inside the subscriber's poll, at enumerated pause points"},
         {"name": "seqmc", "path": "mc", "serves_properties": sorted(CHECKS.keys()),
          "kind_free_text": "explicit enumeration of all operation/poll/configuration sequences up to a depth bound, executed on the real objects next to a reference model (stateless re-execution, iterative deepening, 16 workers)"},
       ],
